@@ -2257,7 +2257,15 @@ def register(I):
         items = list(as_str_items(I, args[0], st))
         if all(isinstance(c, int) for c in items):
             return SliceV(tuple("".join(map(chr, items)).encode("utf-8")))
-        raise Unsupported("as_bytes of symbolic text")
+        out = []
+        for c in items:
+            if isinstance(c, int):
+                out.extend(chr(c).encode("utf-8"))
+            elif isinstance(c, Seg) or I.feasible(st.pc, z3.UGE(c, 128)):
+                raise Unsupported("as_bytes of symbolic text (possibly multi-byte characters)")
+            else:
+                out.append(z3.Extract(7, 0, c))          # ASCII on this path: one byte, the code point itself
+        return SliceV(tuple(out))
 
     # ----------------------------------------------------------------- batch 3: caches, locks, environment, more strings
     def inner_ptr(I, st, r, what):
@@ -2477,6 +2485,55 @@ def register(I):
         return h
     for w_ in ("trim", "trim_start", "trim_end"):
         R["<impl str>::" + w_] = trim_model(w_)
+
+    @reg("<impl str>::lines")
+    def str_lines(I, st, args, info):
+        """lines(): split at \n, a \r directly before it belongs to the line ending, the last line needs no ending;
+        every symbolic character forks on being a line feed (and, before a line feed, a carriage return)"""
+        v = deref_all(I, args[0], st)
+        if not isinstance(v, StrSlice):
+            items = tuple(as_str_items(I, v, st))
+            v = StrSlice(SymBuf(items, name="owned"), 0, len(items))
+        cs = v.chars()
+        n = len(cs)
+
+        def is_ch(c, k):
+            if isinstance(c, int):
+                return c == k
+            if isinstance(c, Seg):
+                return False
+            return c == z3.BitVecVal(k, c.size())
+        alts = [(True, [], 0)]                 # (guard, finished lines [(a, b)], start of the current line)
+        for i in range(n):
+            g_nl = is_ch(cs[i], 10)
+            if g_nl is False:
+                continue
+            nxt = []
+            for g, done, a in alts:
+                if g_nl is not True:
+                    gg = b_and(g, b_not(g_nl))
+                    if gg is not False and I.feasible(st.pc, gg):
+                        nxt.append((gg, done, a))
+                g1 = b_and(g, g_nl)
+                if g1 is False or (g1 is not True and not I.feasible(st.pc, g1)):
+                    continue
+                g_cr = is_ch(cs[i - 1], 13) if i > a else False
+                for gc, end in ((g_cr, i - 1), (b_not(g_cr), i)):
+                    g2 = b_and(g1, gc)
+                    if g2 is False or (g2 is not True and not I.feasible(st.pc, g2)):
+                        continue
+                    nxt.append((g2, done + [(a, end)], i + 1))
+            alts = nxt
+            if len(alts) > 4096:
+                raise Unsupported("too many line splits")
+        outs = []
+        for g, done, a in alts:
+            if a < n:
+                done = done + [(a, n)]
+            outs.append((b_simpl(g) if is_sym(g) else g, IterV([StrSlice(v.buf, v.start + x, v.start + y) for x, y in done])))
+        if len(outs) == 1:
+            return outs[0][1]
+        return Outcomes(outs)
 
     @reg("<impl str>::strip_prefix", "<impl str>::strip_suffix")
     def str_strip(I, st, args, info):
